@@ -113,7 +113,7 @@ class X01:
     def fscfg(self, dotu, msize=8192, maxpend=0):
         return {"dotu": dotu, "msize": msize, "nnodes": BIG["NNodes"], "nfids": BIG["NFids"], "member": sorted(MEMBER), "maxpend": maxpend}
 
-    def engine(self, run, name, dotu, env, timeout=600, max_restarts=40):
+    def engine(self, run, name, dotu, env, timeout=600, max_restarts=300):
         """Run an engine that may be killed by a panic of the server under test; restart after the
         crashed case.  Returns (report, trace path)."""
         ctx = self.ctx
@@ -262,8 +262,8 @@ class X01:
         if q:
             plan = [("tree1", True, 4000), ("walk2", False, 3000), ("perm2", False, 4000), ("io", True, None)]
         else:
-            plan = [("tree", True, None), ("tree1", False, None), ("walk2", False, None), ("walk2", True, None),
-                    ("perm", False, 60000), ("perm2", True, None), ("io", True, None), ("io", False, None)]
+            plan = [("tree", True, 60000), ("tree1", False, None), ("walk2", False, None), ("walk2", True, 12000),
+                    ("perm", False, 40000), ("perm2", True, 30000), ("io", True, None), ("io", False, None)]
         for i, (name, dotu, sample) in enumerate(plan):
             self.model_and_tour(name, CONFIGS[name], dotu, sample)
         if not q:
@@ -271,7 +271,7 @@ class X01:
                 self.model_only(name, c)
         # 3: random histories, permission grid, requests outside the offset rule
         for dotu in (True, False):
-            gen = {"cases": (300 if q else 4000), "steps": (50 if q else 70), "names": RANDOM_NAMES, "users": [1, 2, 3], "groups": [1, 2, 3]}
+            gen = {"cases": (300 if q else 1500), "steps": (50 if q else 70), "names": RANDOM_NAMES, "users": [1, 2, 3], "groups": [1, 2, 3]}
             env = {"VERIF_GEN": json.dumps(gen)}
             if not dotu:
                 env["VERIF_FSCFG"] = json.dumps(self.fscfg(False, msize=1024, maxpend=4))
